@@ -103,4 +103,36 @@ def decodeT05 (bs : List UInt8) : Msg :=
      (.draught, .f32 (field bs 294 8) .div10), (.destination, .text (trim (chars bs 302 k))),
      (.dte, if 302 + 6 * k < 8 * bs.length then dte (field bs (302 + 6 * k) 1) else .sym "NotReady")]⟩
 
+/-! ### Type 15 (interrogation)
+
+The standard's layout (Appendix A): station 1 MMSI@40, request 1 (type@70, offset@76), spare@88,
+request 2 (type@90, offset@96), spare@108, station 2 MMSI@110, request (type@140, offset@146), spare@158.
+The crate decides what is present from the number of remaining bits; `interMsg`/`station` below
+give, for a payload of `L` bits, the absolute positions it reads. -/
+
+/-- One request starting at bit `q` (its 6 type bits are present): the 12-bit slot offset is read
+    when at least 12 more bits remain. Returns the fields and the position after the request. -/
+def interMsg (bs : List UInt8) (q : Nat) : List (Key × Val) × Nat :=
+  if 8 * bs.length - (q + 6) ≥ 12 then
+    ([(.messages_type, .nat (field bs q 6)), (.messages_slot_offset, optNe 0 (field bs (q + 6) 12))], q + 18)
+  else ([(.messages_type, .nat (field bs q 6)), (.messages_slot_offset, .none)], q + 6)
+
+def emptyRequest : List (Key × Val) := [(.messages_type, .nat 0), (.messages_slot_offset, .none)]
+
+def renderStation (bs : List UInt8) (q : Nat) (msgs : List (List (Key × Val))) : List (Key × Val) :=
+  (.stations_mmsi, .nat (field bs q 30)) :: (.messages_count, .nat msgs.length) ::
+    (msgs.zipIdx.flatMap fun (rec, i) => rec.map fun (k, v) => (Key.idx k i, v))
+
+/-- A station starting at bit `q` (MMSI and first request type present): fields and end position. -/
+def station (bs : List UInt8) (q : Nat) : List (Key × Val) × Nat :=
+  let m1 := interMsg bs (q + 30)
+  if 8 * bs.length - m1.2 ≥ 8 then
+    let m2 := interMsg bs (m1.2 + 2)
+    (renderStation bs q (if m2.1 ≠ emptyRequest then [m1.1, m2.1] else [m1.1]), m2.2)
+  else (renderStation bs q [m1.1], m1.2)
+
+def renderStations (bs : List UInt8) (sts : List (List (Key × Val))) : Msg :=
+  ⟨.Interrogation, hdr bs ++ [(.stations_count, .nat sts.length)] ++
+    (sts.zipIdx.flatMap fun (rec, i) => rec.map fun (k, v) => (Key.idx k i, v))⟩
+
 end AisVerif.Spec
